@@ -153,7 +153,7 @@ pub fn judge_std(fault_text: &str, twin_text: &str) -> (Option<(String, String)>
     let control_ok = to.is_ok();
     let fo = compile(&one_file(fault_text), MAIN, false);
     let (fail, outcome) = match &fo {
-        Outcome::Ok(_) => (if control_ok { Some(("accepted-fault".to_string(), format!("the compiler accepted:\n{}", fault_text))) } else { None }, "accepted".to_string()),
+        Outcome::Ok(_) => (Some(("accepted-fault".to_string(), format!("the compiler accepted{}:\n{}", if control_ok { "" } else { " (and rejected the permitted twin)" }, fault_text))), "accepted".to_string()),
         Outcome::Panic { msg, .. } => (Some(("panic-on-fault".to_string(), format!("panic {} on:\n{}", msg, fault_text))), "panic".to_string()),
         Outcome::Err { errs, bytes_written } => {
             if errs.is_empty() {
@@ -183,7 +183,7 @@ pub fn run_std(st: &mut Stats, snips: &'static [StdSnip], pure: bool, engine: &s
         let sn = &snips[*si];
         let (fail, control_ok, outcome) = judge_std(ft, tt);
         acc.evaluations += 2;
-        if !control_ok {
+        if !control_ok && fail.is_none() {
             acc.count("std:control_rejected(case not counted)", 1);
             acc.count(&format!("std:control_rejected:{}@{}", sn.id, cn), 1);
             if acc.samples.len() < 3 {
